@@ -76,9 +76,18 @@ func c16Check(cs c16Case, baseline []hx.Step) (sig, detail, outcome string) {
 		}
 	}
 	if cs.Kind == 3 {
-		// exploratory transient fault: only termination with some fatal error is required
+		// transient fault (the reader fails once, then goes on with the data, then fails for good): the
+		// failure must not be swallowed - a fatal error, and before it nothing but fault-free results
 		if f < 0 {
 			return "transient:no-terminal-result:" + fmtName, describe(), ""
+		}
+		if res.Steps[f].Kind != "fatal" {
+			return "transient:clean-eof-after-fault:" + fmtName, describe(), ""
+		}
+		for i := 0; i < f-1; i++ {
+			if i >= len(baseline) || res.Steps[i] != baseline[i] {
+				return "transient:earlier-result-differs:" + fmtName, describe(), ""
+			}
 		}
 		return "", "", "transient-" + res.Steps[f].Kind
 	}
